@@ -36,6 +36,7 @@ SHAPES = {
         "optvec": dict(kind="optvec"), "count": dict(kind="count"), "num": dict(kind="default"), "mode": dict(kind="option"),
         "flat": dict(kind="flatten", ty="Flat"), "cmd": dict(kind="subcommand-opt", ty="Cmd"),
     },
+    "Cond": {"staging": dict(kind="bool"), "host": dict(kind="required")},
     "Pos": {"first": dict(kind="required", positional=True), "second": dict(kind="option", positional=True), "rest": dict(kind="vec", positional=True)},
     "ReqSub": {"verbose": dict(kind="bool"), "cmd": dict(kind="subcommand-req", ty="Cmd")},
     "OptSub": {"verbose": dict(kind="bool"), "cmd": dict(kind="subcommand-opt", ty="Plain")},
@@ -330,3 +331,15 @@ def run(ctx):
             a1, a2 = expr(cb, c.args[1]), expr(cb, c.args[2])
             okargs = bool(re.search(r"arg1\.0|input", a1)) and bool(re.search(r"arg1\.1|ignore_case", a2))
     res.check(okv and okm and okargs, "R15.4", "from_str", fs.where(), "from_str = value_variants().find(to_possible_value().matches(input, ignore_case))", "ValueEnum::from_str no longer matches every variant's possible value against (input, ignore_case)")
+
+
+    # ---- R15.3b Box<T> forwards every derive-trait method to the method of the same name on T
+    nb = 0
+    for b in fx.bodies(r"^<std::boxed::Box as clap_builder::derive::\w+>::\w+$"):
+        tr, me = re.match(r"^<std::boxed::Box as clap_builder::derive::(\w+)>::(\w+)$", b.q).groups()
+        fw = [c for c in b.calls() if not sp_macro(c.sp) and (c.callee_q or c.decl_q or "").startswith("clap_builder::derive::")]
+        nb += 1
+        want = "clap_builder::derive::%s::%s" % (tr, me)
+        res.check(len(fw) == 1 and (fw[0].callee_q or fw[0].decl_q) == want, "R15.3", "box-forwards|%s::%s" % (tr, me), b.where(), "Box<T>::%s = T::%s" % (me, me),
+                  "<Box<T> as %s>::%s forwards to %s: a boxed value behaves differently from the value itself (e.g. update uses the parse-time command with its required arguments)" % (tr, me, [(c.callee_q or c.decl_q).rsplit("::", 1)[1] for c in fw]))
+    res.floor("R15.3", "Box<T> forwarding methods in clap_builder::derive", nb, 15)
